@@ -343,6 +343,21 @@ def run(s):
                 log.append(['escape', type(e).__name__])
                 rec['escape_site'] = _site(e)
                 log.append(['io', 'iterclose'])
+    elif s['cfg']['tr'] == 'null':
+        # the in-process transport: the call is made directly; a fault is RAISED to the caller (that is no escape)
+        from spyne.server.null import NullServer
+        try:
+            ns_ = NullServer(app)
+            meth = {'gen': 'g', 'none': 'h'}.get(s['inj'].get('res'), 'f')
+            try:
+                r_ = getattr(ns_.service, meth)(5)
+                if hasattr(r_, '__next__'):
+                    list(r_)
+            except Fault:
+                pass
+        except Exception as e:
+            log.append(['escape', type(e).__name__])
+            rec['escape_site'] = _site(e)
     else:
         server = ServerBase(app)
         try:
@@ -377,9 +392,10 @@ def run(s):
     declared_eff = maxlen_u if declared_units == -1 else (0 if declared_units == -2 else declared_units)
     rec['obs'] = log
     rec['k'] = {
-        'tr': s['cfg']['tr'], 'rpc': s['req'].get('kind', 'rpc') == 'rpc', 'soap': s['cfg']['family'] in ('soap11', 'soap12'),
+        'tr': 'base' if s['cfg']['tr'] == 'null' else s['cfg']['tr'], 'rpc': s['req'].get('kind', 'rpc') == 'rpc', 'soap': s['cfg']['family'] in ('soap11', 'soap12'),
         'done': (not any(e[0] == 'escape' for e in log)) or (s['inj'].get('fin', 'ok') != 'ok' and log[-1] == ['io', 'iterclose']),
         'mayEscape': s['inj'].get('fin', 'ok') != 'ok', 'wcloseExpected': s['inj'].get('fin', 'ok') != 'raise_closed',
+        'nodoc': s['cfg']['tr'] == 'null',
         'fault': err is not None, 'fnOk': state['fnOk'], 'redirect': s['inj']['fn'] == 'redirect' and ['fn', 'call'] in log,
         'infault': ierr is not None,
         # the method was matched: a well-formed request for an existing method that is not refused for its size
